@@ -56,6 +56,8 @@ def lattice(tier, rng, purpose):
                         k += 1
                         if tier == "quick" and (k + (k // 4)) % 3:
                             continue
+                        if tier != "quick" and (k + (k // 4)) % 2:
+                            continue        # every second combination: the full product took > 1 h of TLC time on a loaded machine
                         cases.append(ccase(i, a, wq, Q, o, flt, ad, norm, ("unity",) + (("nonneg",) if flt in NONNEG else ()), vals=False))
         extreme = [(8192, 1), (4097, 2), (1000, 3), (6000, 5), (255, 1), (3, 4000), (1, 777), (2000, 1999), (1024, 1023), (513, 64)]
         if tier != "quick":
@@ -88,7 +90,7 @@ def run_coeff_trace(res, name, cases, profile="release"):
     binary = vlib.build_harness(profile)
     wd = vlib.workdir(name + "_coeffs")
     recs, tpath = vlib.run_harness(binary, cases, wd)
-    tr = vlib.run_tlc_trace("TraceCoeffs", tpath, xmx="16g")
+    tr = vlib.run_tlc_trace("TraceCoeffs", tpath, xmx="16g", timeout=10800)
     res.add_trace(tr, len(cases), "TraceCoeffs(%s)" % name)
     claimed = [x for x in tr["lines"] if x[0] == "CLAIMED"]
     if claimed:
